@@ -12,6 +12,8 @@ from harness.refmodel import freeze, same
 S = load()
 
 PROPERTY = "C07"
+LEVEL_TEXT = 'Bounded-exhaustive for slices / indices / masks on vectors of length 0..6 (thorough 0..9) and on 2-column tables; random vectors, comparison operands (incl. hash-twin near-equal pairs and same-object comparison) and tables with repeated / missing names.'
+LEVEL_NOTE = 'date-vs-ISO-string and date-vs-datetime comparisons are excluded (serif documents its own semantics).'
 DESIGN_REF = "DESIGN.md §5 C07"
 ENGINE = "elementwise"
 TECHNIQUE = "bounded-exhaustive enumeration of slices / indices / masks on short vectors and tables + Hypothesis-generated vectors, tables and comparison operands; oracle = Python list semantics and Python's own comparison"
